@@ -45,6 +45,11 @@ struct ItemSel {
     /// optional text put in front of the item (e.g. a verifier attribute)
     #[serde(default)]
     prefix: String,
+    /// enums only: emit the variants without their explicit discriminant values (`A = 8` -> `A`).
+    /// For units that never use the numeric value of a variant; works around a Verus front-end
+    /// error ("discriminant value `0` assigned more than once") seen in some units.
+    #[serde(default)]
+    drop_discriminants: bool,
 }
 
 #[derive(Deserialize, Debug)]
@@ -57,6 +62,10 @@ struct FuncSel {
     ret: String,
     #[serde(default)]
     contract: String,
+    /// take the contract text from another unit file: "<unit>.toml#<select>" (an ASSUMED callee
+    /// then carries exactly the contract that the other unit VERIFIES for it)
+    #[serde(default)]
+    contract_ref: String,
     #[serde(default)]
     loop_spec: Vec<LoopSpec>,
     /// optional text put in front of the function (e.g. a verifier attribute)
@@ -380,6 +389,11 @@ fn emit_item(it: &syn::Item, sel: &ItemSel, dropped: &mut Vec<String>) -> (Strin
         }
         syn::Item::Enum(s) => {
             s.vis = p;
+            if sel.drop_discriminants {
+                for v in s.variants.iter_mut() {
+                    v.discriminant = None;
+                }
+            }
             std::mem::take(&mut s.attrs)
         }
         syn::Item::Const(s) => {
@@ -586,7 +600,19 @@ fn cmd_extract(args: &BTreeMap<String, String>) {
     let out_path = PathBuf::from(args.get("out").unwrap_or_else(|| die(4, "missing --out".into())));
     let specdir = unit_path.parent().unwrap().to_path_buf();
     let unit_text = std::fs::read_to_string(&unit_path).unwrap_or_else(|e| die(4, format!("{}: {}", unit_path.display(), e)));
-    let unit: Unit = toml::from_str(&unit_text).unwrap_or_else(|e| die(4, format!("{}: {}", unit_path.display(), e)));
+    let mut unit: Unit = toml::from_str(&unit_text).unwrap_or_else(|e| die(4, format!("{}: {}", unit_path.display(), e)));
+    for f in unit.func.iter_mut() {
+        if !f.contract_ref.is_empty() {
+            let (file, sel) = f.contract_ref.split_once('#').unwrap_or_else(|| die(4, format!("bad contract_ref {}", f.contract_ref)));
+            let p = specdir.join(file);
+            let t = std::fs::read_to_string(&p).unwrap_or_else(|e| die(4, format!("{}: {}", p.display(), e)));
+            let other: Unit = toml::from_str(&t).unwrap_or_else(|e| die(4, format!("{}: {}", p.display(), e)));
+            match other.func.iter().find(|g| g.select == sel) {
+                Some(g) => f.contract = g.contract.clone(),
+                None => die(4, format!("contract_ref {}: no such function in {}", f.contract_ref, file)),
+            }
+        }
+    }
     let mut src = Sources { root: repo, files: BTreeMap::new() };
     for f in unit.item.iter().map(|i| i.file.clone()).chain(unit.func.iter().map(|f| f.file.clone())) {
         src.get(&f);
@@ -614,7 +640,7 @@ fn cmd_extract(args: &BTreeMap<String, String>) {
             Some(Found::Item(it)) => {
                 let (s, keep) = emit_item(it, isel, &mut dropped);
                 out.push_str(&s);
-                rep_items.push(serde_json::json!({"select": isel.select, "file": isel.file, "derive_kept": keep}));
+                rep_items.push(serde_json::json!({"select": isel.select, "file": isel.file, "derive_kept": keep, "discriminants_dropped": isel.drop_discriminants}));
             }
             _ => die(3, format!("lost anchor: item `{}` not found in {}", isel.select, isel.file)),
         }
